@@ -313,7 +313,8 @@ Definition expected_outcomes (s : shut_case) : list outcome :=
   if is_timer s && point_is s "expiry.fire" && store_down s then [OPanic]                    (* KF-C20-panic *)
   else if is_timer s && is_cad s && (point_is s "expiry.window" || point_is s "cas.beforePost") then [ODeadlock]   (* KF-C20-deadlock *)
   else if is_timer s && is_cad s && negb (point_is s "expiry.fire") then [OOk; ODeadlock]    (* same cycle, depends on who gets bucket.mutex *)
-  else if is_feedstart s && store_down s then [OLeak]                                        (* KF-C20-feedstart *)
+  else if is_feedstart s && is_cad s then [OLeak]                                            (* KF-C20-feedstart; after the last Close of an
+                                                                                                on-disk bucket the starting handle is closed and the start fails (fix 000b6e1) *)
   else [OOk].
 
 Definition shut_corr_ok (t : shut_case * outcome) : bool := existsb (outcome_eqb (snd t)) (expected_outcomes (fst t)).
